@@ -156,3 +156,212 @@ Proof.
   pose proof (cb_mono_small q 0 Hv ltac:(lia)) as H2.
   pose proof (cb_po_ge po (SZ.getBlockSize (SZ.p_bsid q)) Hp ltac:(lia)) as H3. fold q in H3. lia.
 Qed.
+
+(* ---- the byte model's calls succeed ---- *)
+Section Calls.
+  Variable blk : nat -> list byte -> list byte -> option (list byte).
+  Hypothesis Hblk : blk_contract strict_valid blk.
+
+  Notation InvC := (Inv strict_valid).
+
+  Lemma begin_out c0 po : prefs_opt_ok po -> exists hdr c1, compressBegin c0 po NoDict = (Out hdr, c1).
+  Proof.
+    intros Hpo. unfold compressBegin, compressBegin_internal.
+    set (p0 := match po with Some p => p | None => prefs_null end).
+    assert (Hp0 : prefs_ok p0) by (unfold p0; destruct po; [exact Hpo|exact prefs_null_ok]).
+    destruct Hp0 as (Hb & _).
+    assert (HE : isError (getBlockSize (p_bsid (if p_bsid p0 =? 0 then set_bsid p0 LZ4F_BLOCKSIZEID_DEFAULT else p0))) = false).
+    { destruct Hb as [Hb|Hb].
+      - rewrite Hb. reflexivity.
+      - replace (p_bsid p0 =? 0) with false by (symmetry; apply Z.eqb_neq; lia).
+        assert (Hc : p_bsid p0 = 4 \/ p_bsid p0 = 5 \/ p_bsid p0 = 6 \/ p_bsid p0 = 7) by lia.
+        destruct Hc as [->|[->|[->| ->]]]; reflexivity. }
+    rewrite HE. eexists _, _. reflexivity.
+  Qed.
+
+  Lemma update_out dk p maxb X c bl src bc :
+    prefs_norm p -> 0 < maxb < 2147483648 -> InvC dk p maxb X c bl ->
+    exists o c', compressUpdateImpl blk c src bc = (Out o, c').
+  Proof.
+    intros Hp Hmax HI.
+    pose proof (update_never_out_of_fuel blk c src bc) as NF.
+    assert (Hst : c_stage c = 1) by (destruct HI as [[? Hs ? ? ? ? ?] ? ? ? ? ?]; exact Hs).
+    assert (Hmb : c_maxBlock c = maxb) by (destruct HI as [[? ? Hm ? ? ? ?] ? ? ? ? ?]; exact Hm).
+    specialize (NF ltac:(lia)).
+    destruct (compressUpdateImpl blk c src bc) as [r c'] eqn:E. cbn [fst] in NF.
+    destruct r as [e|o|]; [exfalso|eexists _, _; reflexivity|contradiction].
+    unfold compressUpdateImpl in E. cbv zeta in E. rewrite Hst in E. cbn [Z.eqb Pos.eqb negb] in E.
+    destruct (negb (c_mode c =? bc)).
+    - destruct (flush blk c) as [rf cf] eqn:Ef.
+      destruct (flush_inv blk strict_valid Hblk strict_valid_ext dk p maxb X c bl rf cf Hp Hmax HI Ef) as (bl' & -> & _).
+      revert E.
+      destruct (if 0 <? len (c_tmp (set_mode cf bc)) then _ else _) as [[o1 c1] rest1].
+      destruct (fullBlocks blk _ c1 _ _ rest1) as [[[o2 c2] rest2]|]; [|discriminate].
+      destruct (if negb (p_autoFlush (c_prefs c) =? 0) && (0 <? len rest2) then _ else _) as [[o3 c3] rest3]. discriminate.
+    - revert E.
+      destruct (if 0 <? len (c_tmp c) then _ else _) as [[o1 c1] rest1].
+      destruct (fullBlocks blk _ c1 _ _ rest1) as [[[o2 c2] rest2]|]; [|discriminate].
+      destruct (if negb (p_autoFlush (c_prefs c) =? 0) && (0 <? len rest2) then _ else _) as [[o3 c3] rest3]. discriminate.
+  Qed.
+
+  Lemma end_out dk p maxb X c bl :
+    prefs_norm p -> 0 < maxb < 2147483648 -> InvC dk p maxb X c bl -> len X < U64 ->
+    (p_contentSize p = 0 \/ p_contentSize p = len X) ->
+    exists tail c', compressEnd blk c = (Out tail, c').
+  Proof.
+    intros Hp Hmax HI HX Hcs. unfold compressEnd.
+    destruct (flush blk c) as [r c1] eqn:Ef.
+    destruct (flush_inv blk strict_valid Hblk strict_valid_ext dk p maxb X c bl r c1 Hp Hmax HI Ef) as [bl' [Hr [HI1 [Ht1 _]]]].
+    subst r. cbv zeta.
+    destruct HI1 as [[H1 H2 H3 H4 H5 H6 H7] HX1 Htmp1 Hxxh1 Htot1 Hmode1].
+    assert (Hpr : c_prefs (set_stage c1 0) = p) by (cbn; exact H1).
+    assert (Htot2 : c_totalIn (set_stage c1 0) = c_totalIn c1) by reflexivity.
+    rewrite Hpr, Htot2.
+    destruct (Z.eqb_spec (p_contentSize p) 0) as [E0|E0]; [cbn [negb andb]; eexists _, _; reflexivity|].
+    specialize (Htot1 E0). pose proof (len_nonneg X).
+    rewrite Z.mod_small in Htot1 by lia. rewrite Htot1.
+    destruct Hcs as [Hcs|Hcs]; [contradiction|]. rewrite Hcs, Z.eqb_refl. cbn [negb andb]. eexists _, _; reflexivity.
+  Qed.
+End Calls.
+
+(* ---- a whole lz4file write session through the instance ---- *)
+Section Session.
+  Variable blk : nat -> list byte -> list byte -> option (list byte).
+  Hypothesis Hblk : blk_contract strict_valid blk.
+  Notation InvC := (Inv strict_valid).
+
+  (* what the model keeps in tmpIn: nothing under autoFlush *)
+  Definition afJ (c : cctx) : Prop := p_autoFlush (c_prefs c) <> 0 -> c_tmp c = [].
+
+  Definition keeps (c c' : cctx) : Prop := c_tmp c' = c_tmp c /\ c_prefs c' = c_prefs c /\ c_mode c' = c_mode c.
+  Lemma makeBlock_keeps c src f : keeps c (snd (makeBlock blk c src f)).
+  Proof. unfold makeBlock, keeps. cbn. auto. Qed.
+  Lemma fullBlocks_keeps : forall fuel c f bs src o c' r,
+    fullBlocks blk fuel c f bs src = Some (o, c', r) -> keeps c c'.
+  Proof.
+    induction fuel as [|k IH]; intros c f bs src o c' r H; [discriminate H|]. cbn [fullBlocks] in H.
+    destruct (bs <=? len src); [|inversion H; subst; unfold keeps; auto].
+    destruct (makeBlock blk c (firstn (Z.to_nat bs) src) f) as [o1 c1] eqn:EM.
+    pose proof (makeBlock_keeps c (firstn (Z.to_nat bs) src) f) as K. rewrite EM in K. cbn [snd] in K.
+    destruct (fullBlocks blk k c1 f bs (skipn (Z.to_nat bs) src)) as [[[o2 c2] r2]|] eqn:EF; [|discriminate H].
+    inversion H; subst. destruct (IH _ _ _ _ _ _ _ EF) as (A & B & C). destruct K as (K1 & K2 & K3). unfold keeps. repeat split; congruence.
+  Qed.
+
+  Lemma update_afJ c src o c' :
+    c_mode c = FC_LZ4B_COMPRESSED -> afJ c -> compressUpdate blk c src = (Out o, c') -> afJ c' /\ c_mode c' = FC_LZ4B_COMPRESSED.
+  Proof.
+    intros Hmode HJ H. unfold compressUpdate, compressUpdateImpl in H. cbv zeta in H.
+    destruct (negb (c_stage c =? 1)); [discriminate H|].
+    rewrite Hmode in H. change (FC_LZ4B_COMPRESSED =? FC_LZ4B_COMPRESSED) with true in H. cbn [negb] in H.
+    unfold afJ in *.
+    destruct (Z.eq_dec (p_autoFlush (c_prefs c)) 0) as [Ea|Ea].
+    - revert H.
+      destruct (if 0 <? len (c_tmp c) then _ else _) as [[o1 c1] rest1] eqn:E1.
+      assert (K1 : c_prefs c1 = c_prefs c /\ c_mode c1 = c_mode c).
+      { destruct (0 <? len (c_tmp c)); [|inversion E1; subst; auto].
+        destruct (len src <? c_maxBlock c - len (c_tmp c)); [inversion E1; subst; cbn; auto|].
+        destruct (makeBlock blk c _ _) as [om cm] eqn:EM. inversion E1; subst. unfold makeBlock in EM. inversion EM; subst. cbn. auto. }
+      destruct (fullBlocks blk _ c1 _ _ rest1) as [[[o2 c2] rest2]|] eqn:EF; [|discriminate].
+      destruct (fullBlocks_keeps _ _ _ _ _ _ _ _ EF) as (_ & B & C).
+      rewrite Ea. cbn [Z.eqb negb andb].
+      intro H. inversion H; subst c'. destruct K1 as [K1 K2].
+      destruct (0 <? len rest2); cbn; (split; [intro Hc; exfalso; apply Hc; congruence|congruence]).
+    - specialize (HJ Ea). rewrite HJ in H. cbn [len length Z.of_nat Z.ltb Z.compare] in H.
+      revert H.
+      destruct (fullBlocks blk _ c _ _ src) as [[[o2 c2] rest2]|] eqn:EF; [|discriminate].
+      destruct (fullBlocks_keeps _ _ _ _ _ _ _ _ EF) as (A & B & C).
+      replace (negb (p_autoFlush (c_prefs c) =? 0)) with true by (symmetry; apply negb_true_iff, Z.eqb_neq; exact Ea).
+      cbn [andb].
+      destruct (0 <? len rest2) eqn:Er.
+      + intro H. inversion H; subst c'. cbn. split; [intros _; rewrite A, HJ; reflexivity|congruence].
+      + intro H. inversion H; subst c'. rewrite Er. cbn. split; [intros _; rewrite A, HJ; reflexivity|congruence].
+  Qed.
+
+  Lemma sz_getBlockSize_bsid b m : bsid_size b = Some m -> SZ.getBlockSize b = m.
+  Proof.
+    unfold bsid_size.
+    destruct (b =? 4) eqn:E4; [apply Z.eqb_eq in E4; subst; intro H; inversion H; reflexivity|].
+    destruct (b =? 5) eqn:E5; [apply Z.eqb_eq in E5; subst; intro H; inversion H; reflexivity|].
+    destruct (b =? 6) eqn:E6; [apply Z.eqb_eq in E6; subst; intro H; inversion H; reflexivity|].
+    destruct (b =? 7) eqn:E7; [apply Z.eqb_eq in E7; subst; intro H; inversion H; reflexivity|]. discriminate.
+  Qed.
+  Lemma mop_inputs_updates chunks : mop_inputs (map MUpdate chunks) = concat chunks.
+  Proof. induction chunks as [|ch r IH]; [reflexivity|]. cbn. rewrite IH. reflexivity. Qed.
+
+  (* LZ4F_flush writes at most a block header, the buffered bytes and a block checksum *)
+  Lemma flush_len c o c1 : flush blk c = (Out o, c1) ->
+    len o <= (if 0 <? len (c_tmp c) then 4 + len (c_tmp c) + (if p_bcrc (c_prefs c) =? 0 then 0 else 4) else 0).
+  Proof.
+    unfold flush. pose proof (len_nonneg (c_tmp c)) as H0.
+    destruct (len (c_tmp c) =? 0) eqn:E0.
+    - intro H. inversion H; subst. apply Z.eqb_eq in E0. rewrite E0. cbn. lia.
+    - apply Z.eqb_neq in E0. destruct (negb (c_stage c =? 1)); [discriminate|].
+      unfold makeBlock. intro H. inversion H; subst o. clear H.
+      replace (0 <? len (c_tmp c)) with true by (symmetry; apply Z.ltb_lt; lia).
+      rewrite !len_app.
+      set (cres := match selectCompression _ _ _ with CF_none => None | _ => _ end).
+      set (cSize := match cres with Some cb => len cb | None => 0 end).
+      assert (Hh : forall v, len (writeLE32 v) = 4) by reflexivity.
+      assert (Hst : len (if (cSize =? 0) || (len (c_tmp c) <=? cSize) then c_tmp c else match cres with Some cb => cb | None => [] end) <= len (c_tmp c)).
+      { destruct ((cSize =? 0) || (len (c_tmp c) <=? cSize)) eqn:E; [lia|].
+        apply orb_false_iff in E. destruct E as [_ E]. apply Z.leb_gt in E. unfold cSize in E. destruct cres; [lia|cbn; lia]. }
+      destruct ((cSize =? 0) || (len (c_tmp c) <=? cSize)); rewrite Hh; destruct (negb (p_bcrc (c_prefs c) =? 0)) eqn:Ec;
+        try rewrite Hh; try (apply negb_true_iff in Ec; rewrite Ec); try (apply negb_false_iff in Ec; rewrite Ec); cbn [len length Z.of_nat]; lia.
+  Qed.
+
+  Definition prefs_wf (po : option SZ.prefs) : Prop :=
+    match po with Some p => 0 <= SZ.p_dictid p < 4294967296 | None => True end.
+
+  Lemma cvpo_ok po mw content :
+    maxWrite_of po = Some mw -> prefs_wf po -> FileProofs.csize_ok po content -> Z.of_nat (length content) < U64 ->
+    prefs_opt_ok (cvpo po).
+  Proof.
+    intros Hmw Hwf Hcs HX. destruct (maxWrite_cases po mw Hmw) as [Hp _].
+    destruct po as [p|]; [|exact I]. cbn [cvpo option_map prefs_opt_ok]. unfold prefs_ok, cvp. cbn.
+    unfold SP.prefs_ok in Hp. apply SP.valid_bsid0_cases in Hp. cbn in Hwf, Hcs.
+    split; [lia|]. split; [destruct (SZ.p_linked p); auto|]. split; [destruct (SZ.p_cchk p); cbn; auto|].
+    split; [destruct (SZ.p_bchk p); cbn; auto|]. split; [unfold U64 in HX; lia|exact Hwf].
+  Qed.
+
+  (* the update loop of LZ4F_write, chunk by chunk *)
+  Lemma updates_run po mw p maxb :
+    maxWrite_of po = Some mw -> p = eff_prefs (cvpo po) -> prefs_norm p -> bsid_size (p_bsid p) = Some maxb ->
+    forall chunks X c bl,
+      InvC NoDict p maxb X c bl -> afJ c -> c_mode c = FC_LZ4B_COMPRESSED ->
+      Forall (fun ch => (1 <= length ch <= mw)%nat) chunks ->
+      exists outs c2 bl2,
+        run_updates cctx (fc_update blk) c chunks (SZ.compressBound (Z.of_nat mw) po) = (Some outs, c2) /\
+        run_mops blk c (map MUpdate chunks) = Some (concat outs, c2) /\
+        InvC NoDict p maxb (X ++ concat chunks) c2 bl2 /\ afJ c2 /\ c_mode c2 = FC_LZ4B_COMPRESSED.
+  Proof.
+    intros Hmw Hp Hnorm Hmaxb.
+    destruct (maxWrite_cases po mw Hmw) as [Hpo Hbs].
+    assert (Hq : szp p = SO.begin_prefs po) by (rewrite Hp; apply szp_eff).
+    assert (Hmb : Z.of_nat mw = maxb).
+    { rewrite Hbs, <- Hq. cbn [szp SZ.p_bsid]. apply sz_getBlockSize_bsid. exact Hmaxb. }
+    pose proof (bsid_size_range _ _ Hmaxb) as Hmax.
+    induction chunks as [|ch r IH]; intros X c bl HI HJ Hm Hall.
+    - exists [], c, bl. cbn. rewrite app_nil_r. auto.
+    - apply Forall_cons_iff in Hall. destruct Hall as [Hch Hr].
+      assert (Hst : c_stage c = 1) by (destruct HI as [[? Hs ? ? ? ? ?] ? ? ? ? ?]; exact Hs).
+      assert (Hpr : c_prefs c = p) by (destruct HI as [[Hs ? ? ? ? ? ?] ? ? ? ? ?]; exact Hs).
+      assert (Htmp : len (c_tmp c) < maxb) by (destruct HI as [? ? Ht ? ? ?]; exact Ht).
+      cbn [run_updates map run_mops step_mop].
+      unfold fc_update at 1. rewrite Hst. cbn [Z.eqb Pos.eqb negb].
+      (* the capacity test of LZ4F_compressUpdate passes *)
+      assert (Hcap : (SZ.compressBound (Z.of_nat mw) po <? SZ.compressBound_internal (len ch) (Some (szp (c_prefs c))) (len (c_tmp c))) = false).
+      { apply Z.ltb_ge. rewrite Hpr, Hq. apply cap_update; auto.
+        - unfold len. lia.
+        - pose proof (len_nonneg (c_tmp c)). lia.
+        - intro Haf. unfold afJ in HJ. rewrite Hpr in HJ. rewrite <- Hq in Haf. cbn [szp SZ.p_af] in Haf.
+          apply negb_true_iff, Z.eqb_neq in Haf. rewrite (HJ Haf). reflexivity. }
+      rewrite Hcap.
+      destruct (update_out blk Hblk NoDict p maxb X c bl ch FC_LZ4B_COMPRESSED Hnorm Hmax HI) as (o & c' & Hu).
+      fold (compressUpdate blk c ch) in Hu. rewrite Hu. cbn [lift].
+      destruct (update_inv blk strict_valid Hblk strict_valid_ext NoDict p maxb X c bl ch FC_LZ4B_COMPRESSED o c' Hnorm Hmax HI ltac:(intros _; reflexivity) Hu)
+        as (bl' & _ & HI').
+      destruct (update_afJ c ch o c' Hm HJ Hu) as [HJ' Hm'].
+      destruct (IH (X ++ ch) c' (bl ++ bl') HI' HJ' Hm' Hr) as (outs & c2 & bl2 & R1 & R2 & R3 & R4 & R5).
+      exists (o :: outs), c2, bl2. rewrite R1, R2. cbn [concat]. rewrite <- app_assoc in R3. auto.
+  Qed.
+End Session.
